@@ -186,18 +186,44 @@ def err_tags(r):
 
 
 def copy_tags(r):
-    """(source disk, source name, destination disk, destination name) of every scan:copy tag"""
-    return sorted((t[2], t[3], t[4], t[5]) for t in r.tags if t[0] == b"scan" and len(t) >= 6 and t[1] == b"copy")
+    """(destination disk, destination name) of every scan:copy tag. Which of several identical recorded/assumed copies is named
+    as the SOURCE may depend on the scan order without any effect on the state (the inherited hashes are the same), so the
+    source is not compared."""
+    return sorted((t[4], t[5]) for t in r.tags if t[0] == b"scan" and len(t) >= 6 and t[1] == b"copy")
+
+
+def copy_sources(r):
+    out = {}
+    for t in r.tags:
+        if t[0] == b"scan" and len(t) >= 6 and t[1] == b"copy":
+            out.setdefault((t[4], t[5]), set()).add((t[2], t[3]))
+    return out
+
+
+def scan_tags(r):
+    """scan: tags with the source of copies blanked (see copy_tags)"""
+    out = []
+    for t in r.tags:
+        if t[0] != b"scan":
+            continue
+        t = tuple(t)
+        if len(t) >= 6 and t[1] == b"copy":
+            t = (t[0], t[1], b"*", b"*") + t[4:]
+        out.append(t)
+    return sorted(out)
 
 
 def scan_diff_key(ref, r):
     """The scanner's classification differs between two runs over the same tree. One mechanism is a recorded finding: a new
     file is taken for a copy of a recorded file of another disk only if that disk's scan thread has not yet replaced the
-    record because the source itself was updated - diagnosed as: every differing copy tag names a source that the same scan
-    reports as updated."""
+    record because the source itself was updated - diagnosed as: every file that is a copy in one run only has a source
+    that the same scan reports as updated."""
     a, b = set(copy_tags(ref)), set(copy_tags(r))
+    srcs = copy_sources(ref)
+    for k, v in copy_sources(r).items():
+        srcs.setdefault(k, set()).update(v)
     upd = {(t[2], t[3]) for x in (ref, r) for t in x.tags if t[0] == b"scan" and len(t) >= 4 and t[1] == b"update"}
-    if all((c[0], c[1]) in upd for c in a ^ b):
+    if (a ^ b) and all(srcs.get(c) and srcs[c] <= upd for c in a ^ b):
         return "scan-classification-depends-on-schedule:copy/source-updated-in-the-same-scan"
     return "scan-classification-depends-on-schedule:copy/unexplained"
 
@@ -213,10 +239,12 @@ def build_scenario(rng, kind, variant):
         a.cleanup()
         raise scen.CaseError("setup sync failed")
     c = a.load_content()
-    if kind in ("errors", "mixed"):
-        # silent errors in synced data and parity
+    if kind in ("errors", "mixed") or (kind == "skip" and rng.random() < 0.7):
+        # silent errors in synced data and parity (in the skip scenario they share stripes with files that fail during the sync)
         targets = [(f, i) for f in c.files for i, b in enumerate(f.blocks)]
-        for (f, i) in rng.sample(targets, min(len(targets), rng.randint(2, 6))):
+        # skip scenario: dense silent damage, so that the stripes of the files failing during the sync hold silent errors too
+        nsil = rng.randint(2, 6) if kind != "skip" else max(2, int(len(targets) * rng.choice([0.2, 0.4, 0.6])))
+        for (f, i) in rng.sample(targets, min(len(targets), nsil)):
             dmg.damage_file_block(a, c, f, i, rng, rng.choice(["bit", "block"]))
         sm = sorted(c.stripe_map())
         for pos in rng.sample(sm, min(len(sm), rng.randint(1, 4))):
@@ -230,7 +258,7 @@ def build_scenario(rng, kind, variant):
 def run_diff_case(case):
     _k, seed, idx, tier = case
     rng = random.Random("c13-%d-%d" % (seed, idx))
-    kind = ["pending", "errors", "mixed", "skip"][idx % 4]
+    kind = ["pending", "errors", "mixed", "skip", "skip"][idx % 5]
     res = dict(key="diff-%d" % idx, violations=[], counters={}, nontrivial=False, sigs=[])
     a, fs, cfg = build_scenario(rng, kind, "plain")
     tpl = None
@@ -244,7 +272,7 @@ def run_diff_case(case):
             import shlex
             fl = [x for x in fs.files() if len(fs.entries[x[0]][x[1]][1]) > 0]
             acts = []
-            for (d, s_) in rng.sample(fl, min(len(fl), rng.randint(1, 3))):
+            for (d, s_) in rng.sample(fl, min(len(fl), rng.randint(2, 5))):
                 pth = shlex.quote(os.fsdecode(fs.path(d, s_)))
                 acts.append(("rm -f %s" % pth) if rng.random() < 0.6 else ("printf changed-during-sync >> %s" % pth))
             cmds = [("sync", ["-E", "-Z", "--test-run", " ; ".join(acts)])]
@@ -254,7 +282,7 @@ def run_diff_case(case):
             # per-disk scan threads under perturbation
             tpl.restore()
             sref = a.cmd("diff", "--test-skip-multi-scan", shim={"time": T, "log": False})
-            stags = sorted(tuple(t) for t in sref.tags if t[0] == b"scan")
+            stags = scan_tags(sref)
             for ps in ([None, 1, 2, 3, 4, 5] if tier == "quick" else [None] + list(range(1, 16))):
                 env = {"SNAPRAID_VERIF_SCHED": str(ps * 104729 + idx)} if ps is not None else {}
                 r = a.cmd("diff", shim={"time": T, "log": False}, env=env, timeout=25)
@@ -263,7 +291,7 @@ def run_diff_case(case):
                 if r.timeout:
                     res["violations"].append(("hang:diff", "diff sched %s did not end within 25 s" % ps, rep))
                     break
-                now_t = sorted(tuple(t) for t in r.tags if t[0] == b"scan")
+                now_t = scan_tags(r)
                 if r.rc != sref.rc:
                     res["violations"].append(("exit-status-depends-on-schedule:diff", "diff sched %s rc=%s, sequential scan rc=%s" % (ps, r.rc, sref.rc), rep))
                 if now_t != stags:
@@ -515,7 +543,7 @@ def main(tier, seed, replay, jobs, scale):
         import json
         cases = [tuple(json.load(open(replay))["replay"]["case"])]
     else:
-        nd = int((10 if tier == "quick" else 40) * scale)
+        nd = int((25 if tier == "quick" else 60) * scale)
         ns = int((16 if tier == "quick" else 80) * scale)
         nt = int((3 if tier == "quick" else 10) * scale)
         cases = [("san", seed, i, tier) for i in range(ns)] + [("diff", seed, i, tier) for i in range(nd)] + [("term", seed, i, tier) for i in range(nt)]
